@@ -388,8 +388,10 @@ def finish(ctx, level="model_checking"):
     ev = dict(property_id=ctx.pid, tier=ctx.tier, seed=ctx.seed, level=level, coverage=cov,
               assumptions=ctx.assumptions, wall_s=round(time.time() - ctx.t0, 2), violations=len(real),
               known_findings_seen=sorted(seen_known))
-    os.makedirs(EVID, exist_ok=True)
-    with open(os.path.join(EVID, ctx.pid + ".json"), "w") as f:
+    extra = not re.fullmatch(r"C\d\d", ctx.pid)      # system-level extras (./check SYS) are not listed properties
+    evdir = os.path.join(VERIF, "evidence_extra") if extra else EVID
+    os.makedirs(evdir, exist_ok=True)
+    with open(os.path.join(evdir, ctx.pid + ".json"), "w") as f:
         json.dump(ev, f, indent=1, default=str)
         f.write("\n")
     shown = set()
@@ -399,7 +401,7 @@ def finish(ctx, level="model_checking"):
         shown.add(path)
         if len(shown) <= 8:
             log("violation: " + text[:700])
-            print("VIOLATION property=%s replay=%s" % (ctx.pid, path))
+            print(("DEVIATION extra=%s replay=%s" if extra else "VIOLATION property=%s replay=%s") % (ctx.pid, path))
     if len(shown) > 8:
         log("(%d further violations not listed)" % (len(shown) - 8))
     return 1 if real else 0
